@@ -23,7 +23,7 @@ RULE = (
 )
 ASSUMPTIONS = ["callers mutating the map returned by GetCategoryToUnitAndExps() themselves are outside 'public operations'"]
 BUDGET_S = {"quick": 120, "thorough": 1200}
-N = {"quick": 250, "thorough": 4000}
+N = {"quick": 600, "thorough": 5000}
 STEPS = {"quick": 40, "thorough": 60}
 SHARDS = {"quick": 8, "thorough": 16}
 
